@@ -16,4 +16,5 @@ MIN_OBLIGATIONS = 20
 
 def build(src, tier):
     w = TT.world_for(src, tier)
-    return [(w, [TT.t_cancel_events(), TT.t_cancel_event()])]
+    # cancellation can only reach sources that are tracked: what __post_event owes (tags C11) is checked here too
+    return [(w, [TT.t_cancel_events(), TT.t_cancel_event(), TT.t_timed_post('fifo'), TT.t_timed_post('lifo')])]
